@@ -81,18 +81,25 @@ class EventDispatcher:
         """
         assert isinstance(handler, EventHandler)
 
+        # Resolve the callbacks once: looking one up on the class may
+        # give a new object each time (eg. functools.partialmethod), and
+        # nothing is registered if one of them cannot be resolved
+        callbacks = tuple(
+            (event_name, getattr(handler.__class__, method_name))
+            for event_name, method_name in handler.__events__.items())
+
+        # A handler is registered at most once: adding it again
+        # replaces its previous registration
+        self._remove_weak_handler(_HandlerRef(handler))
+
         # Populate _events
         handler_ref = _HandlerRef(handler, self._remove_weak_handler)
-        for event_name, method_name in handler.__events__.items():
+        for event_name, method_ref in callbacks:
             self._events.setdefault(event_name, set()).add(
-                (handler_ref, getattr(handler.__class__, method_name)))
+                (handler_ref, method_ref))
 
         # Populate _handlers
-        self._handlers[handler_ref] = \
-            tuple(
-                (event_name, getattr(handler.__class__, method_name))
-                for event_name, method_name in handler.__events__.items()
-        )
+        self._handlers[handler_ref] = callbacks
 
     def is_handler(self, handler: EventHandler) -> bool:
         """Return whether or not a handler is into the dispatcher."""
